@@ -9,8 +9,11 @@ import (
 	"io"
 	"net"
 	"os"
+	"os/exec"
 	"os/signal"
 	"path/filepath"
+	"strconv"
+	"strings"
 	"syscall"
 
 	"gitlab.com/gomidi/midi/v2/smf"
@@ -161,7 +164,7 @@ func init() {
 			"faults placed after the last byte the reader consumes are not counted (the library never sees them)",
 			"WriteFile faults are injected by the kernel through RLIMIT_FSIZE with SIGXFSZ ignored (write returns EFBIG after a short write up to the limit)",
 		},
-		Require: []string{"write_faults_full_count", "write_faults_transient", "write_faults_transient_short", "write_faults_short_count_without_error", "write_fault_files_above_64KiB", "write_faults_injected", "write_faults_short", "write_faults_after_header", "read_faults_returned", "read_faults_with_data", "writefile_faults", "unfaulted_writes", "read_faults_big_payload"},
+		Require: []string{"write_faults_full_count", "write_faults_transient", "write_faults_transient_short", "write_faults_short_count_without_error", "write_fault_files_above_64KiB", "write_faults_injected", "write_faults_short", "write_faults_after_header", "read_faults_returned", "read_faults_with_data", "writefile_faults", "writefile_close_faults", "unfaulted_writes", "read_faults_big_payload"},
 		Run:     runC10,
 	})
 }
@@ -448,4 +451,112 @@ func runC10(c *mon.Ctx) {
 			c.Violation("writefile-content", "WriteFile content differs from WriteTo", a.desc, nil, nil)
 		}
 	})
+
+	// ---- real files: the destination reports the failure when it is closed (what a network or quota-limited file
+	// system does: every write is accepted, close returns ENOSPC / EDQUOT / EIO and the data is not there). WriteFile runs
+	// in a child process under strace, which lets the close of exactly that file fail; two controls per case make
+	// sure the injection did what it should (a plain os.File.Close on the same path reports the error; WriteFile
+	// without injection succeeds).
+	c.Each("writefile-close-fails", c.N(6, 200), func(i int64, r *mon.Rand) {
+		strace, err := exec.LookPath("strace")
+		if err != nil {
+			c.Inconclusive("strace not found: " + err.Error())
+			return
+		}
+		exe, err := os.Executable()
+		if err != nil {
+			c.Inconclusive("os.Executable: " + err.Error())
+			return
+		}
+		dir := c.Dir
+		if dir == "" {
+			dir = os.TempDir()
+		}
+		path := filepath.Join(dir, fmt.Sprintf("wfc-%d-%d.mid", c.Shard, i))
+		defer os.Remove(path)
+		errno := []string{"ENOSPC", "EDQUOT", "EIO"}[i%3]
+		run := func(mode string, inject bool) (string, bool) {
+			os.Remove(path)
+			args := []string{"-f", "-qq", "-o", "/dev/null", "-P", path, "-e", "trace=close"}
+			if inject {
+				args = append(args, "-e", "inject=close:error="+errno)
+			}
+			args = append(args, exe, "-probe", "c10-writefile", mode, path, fmt.Sprint(c.Seed), fmt.Sprint(i))
+			cmd := exec.Command(strace, args...)
+			cmd.Env = append(os.Environ(), "GOMAXPROCS=2")
+			out, err := cmd.Output()
+			if err != nil {
+				c.Inconclusive(fmt.Sprintf("probe %s under strace did not run: %v (%s)", mode, err, head(out, 200)))
+				return "", false
+			}
+			return strings.TrimSpace(string(out)), true
+		}
+		in := map[string]any{"case": i, "close_fails_with": errno}
+		// control 1: the injection reaches the close of that file
+		if out, ok := run("plainclose", true); !ok {
+			return
+		} else if !strings.HasPrefix(out, "close=error") {
+			c.Inconclusive("control: os.File.Close under the injection did not fail: " + out)
+			return
+		}
+		// control 2: without injection WriteFile succeeds and the file is complete
+		out, ok := run("writefile", false)
+		if !ok {
+			return
+		}
+		if !strings.HasPrefix(out, "err=nil exists=true complete=true") {
+			if strings.HasPrefix(out, "skip") {
+				return
+			}
+			c.Violation("writefile-unfaulted", "WriteFile in the child process without fault: "+out, in, "err=nil exists=true complete=true", out)
+			return
+		}
+		out, ok = run("writefile", true)
+		if !ok {
+			return
+		}
+		c.Count("writefile_close_faults", 1)
+		c.Eval(1)
+		c.DistinctBytes([]byte(fmt.Sprint("wfc", i, errno)))
+		switch {
+		case strings.HasPrefix(out, "err=nil"):
+			c.Violation("writefile-close-error-swallowed", fmt.Sprintf("closing the destination file failed with %s (every write had been accepted) but WriteFile returned nil", errno), in, "error", out)
+		case strings.Contains(out, "exists=true"):
+			c.Violation("writefile-partial-left", "WriteFile failed at close but left the file behind: "+out, in, "file removed", out)
+		}
+	})
+}
+
+func init() {
+	mon.Probes["c10-writefile"] = func(args []string) {
+		mode, path := args[0], args[1]
+		seed, _ := strconv.ParseUint(args[2], 10, 64)
+		if mode == "plainclose" {
+			f, err := os.Create(path)
+			if err != nil {
+				fmt.Println("create failed:", err)
+				return
+			}
+			f.Write([]byte("MThd"))
+			if err := f.Close(); err != nil {
+				fmt.Println("close=error", err)
+			} else {
+				fmt.Println("close=nil")
+			}
+			return
+		}
+		a := buildHistory(mon.NewRand(seed, "C10wfc", args[3], 0), 0x0FFFFFFF, false)
+		var refBuf bytes.Buffer
+		if _, err := a.s.WriteTo(&refBuf); err != nil {
+			fmt.Println("skip: value cannot be written:", err)
+			return
+		}
+		err := a.s.WriteFile(path)
+		got, rerr := os.ReadFile(path)
+		res := "err=nil"
+		if err != nil {
+			res = "err=error(" + err.Error() + ")"
+		}
+		fmt.Printf("%s exists=%v complete=%v\n", res, rerr == nil, bytes.Equal(got, refBuf.Bytes()))
+	}
 }
